@@ -134,6 +134,33 @@ func runAllEntryPoints(input string, strict bool) (viol string, outcome string) 
 		m, err := sml.NewParser(sml.WithParserStrictMode(strict)).Parse(input)
 		return m, err, false
 	})
+	// a LONG-LIVED parser (one per mode for the whole process: by now it has parsed thousands of
+	// inputs, most of them rejected half-way) must behave on this input exactly like a fresh one
+	try("Parser.Parse(reused)", func() ([]*hsms.DataMessage, error, bool) {
+		describe := func(ms []*hsms.DataMessage, err error) string {
+			var b strings.Builder
+			fmt.Fprintf(&b, "err=%v n=%d", err, len(ms))
+			for _, m := range ms {
+				if m != nil {
+					fmt.Fprintf(&b, " %x", m.ToBytes())
+				}
+			}
+			return b.String()
+		}
+		reusedMu.Lock()
+		rp := reusedParsers[strict]
+		if rp == nil {
+			rp = sml.NewParser(sml.WithParserStrictMode(strict))
+			reusedParsers[strict] = rp
+		}
+		m, err := rp.Parse(input)
+		reusedMu.Unlock()
+		fm, ferr := sml.NewParser(sml.WithParserStrictMode(strict)).Parse(input)
+		if a, b := describe(m, err), describe(fm, ferr); a != b {
+			viol = fmt.Sprintf("a long-lived Parser(strict=%v) and a fresh one disagree on this input:\n long-lived: %.300s\n fresh:      %.300s", strict, a, b)
+		}
+		return m, err, false
+	})
 	try("ParseMessage", func() ([]*hsms.DataMessage, error, bool) {
 		m, err := sml.NewParser(sml.WithParserStrictMode(strict)).ParseMessage(input)
 		if err != nil {
@@ -156,6 +183,11 @@ func runAllEntryPoints(input string, strict bool) (viol string, outcome string) 
 	})
 	return viol, sb.String()
 }
+
+var (
+	reusedMu      sync.Mutex
+	reusedParsers = map[bool]*sml.Parser{}
+)
 
 // ---- generators ----------------------------------------------------------------------------
 
@@ -242,7 +274,7 @@ func mutateText(rt *rapid.T, s string) (string, string) {
 }
 
 func TestC14Total(t *testing.T) {
-	ev.Rule("inputs = SML written from generated messages (all item types, loose and canonical styles, comments, 1-3 messages) put through text mutators (truncate anywhere, delete/insert tokens incl. NUL, 8-bit and multi-byte runes, unbalanced brackets, dropped quotes, size-hint rewrites incl. negative/overflowing/inverted ranges, duplicated spans, swapped brackets, unterminated comments and strings, damaged headers) and token soup; each through Parse, Parser.Parse, ParseMessage, ParseHeader in strict and non-strict mode. Oracle: no panic; result is (valid messages, nil) or (nil, err); every *ParseError has 0<=Offset<=len, Line == 1+newlines before Offset, Col == Offset - last newline before it (computed independently). Non-trivial: input contains '<' and at least one entry point rejects it; distinct by input. Size hints > 65536 are exercised in child processes (TestC14Resources), not here.")
+	ev.Rule("inputs = SML written from generated messages (all item types, loose and canonical styles, comments, 1-3 messages) put through text mutators (truncate anywhere, delete/insert tokens incl. NUL, 8-bit and multi-byte runes, unbalanced brackets, dropped quotes, size-hint rewrites incl. negative/overflowing/inverted ranges, duplicated spans, swapped brackets, unterminated comments and strings, damaged headers) and token soup; each through Parse, Parser.Parse (a fresh parser and a long-lived one that has seen every earlier input of the process: both must agree), ParseMessage, ParseHeader in strict and non-strict mode. Oracle: no panic; result is (valid messages, nil) or (nil, err); every *ParseError has 0<=Offset<=len, Line == 1+newlines before Offset, Col == Offset - last newline before it (computed independently). Non-trivial: input contains '<' and at least one entry point rejects it; distinct by input. Size hints > 65536 are exercised in child processes (TestC14Resources), not here.")
 	vt.Check(t, 30000, 1000000, func(rt *rapid.T) {
 		nmsg := rapid.SampledFrom([]int{1, 1, 2, 3}).Draw(rt, "nmsg")
 		style := gen.NewSMLStyle(rt, rapid.Bool().Draw(rt, "loose"), rapid.Bool().Draw(rt, "comments"), rapid.Bool().Draw(rt, "nogt"))
